@@ -1,5 +1,5 @@
 \* quick export, singles: every URI (accepted or not) over the whole alphabet
-\* {a, A, ".", "..", "%2e%2e", "%2F", "a b", "", x200 (a 200 character segment)}, <= 2 segments; hosts incl. "." ".." "".
+\* {a, A, ".", "..", "%2e%2e", "%2F", "a b", "", x200, x300 (segments of 200 and 300 characters)}, <= 2 segments; hosts incl. "." ".." "".
 SPECIFICATION Spec
 CONSTANTS
   Variant = "as_shipped"
@@ -12,7 +12,7 @@ CONSTANTS
   Ports = {"", "873"}
   Mods = {"m", "..", ""}
   Segs = {"a"}
-  SegsAll = {"a", "A", ".", "..", "%2e%2e", "%2F", "a b", "", "x200"}
+  SegsAll = {"a", "A", ".", "..", "%2e%2e", "%2F", "a b", "", "x200", "x300"}
   NearSpread = 5
   MaxSegs = 2
 INVARIANT Emit
